@@ -35,7 +35,7 @@ def idx_key(idx):
     out = []
     for i in idx:
         i = unwrap(i)
-        out.append(i if isinstance(i, int) else ("z", i.get_id()))
+        out.append(i if isinstance(i, int) else ("z", S.eid(i)))
     return tuple(out)
 
 
